@@ -193,12 +193,22 @@ partial def substIter (listPath : List String) (en : String) (k : Nat) (j : Json
     | .ok (Json.str "idx") =>
         -- `ForeachRefExpander`: the index becomes `ExprLiteralModel(i, True, 32)`
         Json.mkObj [("k", Json.str "lit"), ("v", jNat k), ("s", Json.bool true), ("w", jNat 32)]
+    | .ok (Json.str "foreach_o") =>
+        -- a nested foreach over a list of the current element: its list path is completed, its body belongs to
+        -- the inner loop (iterator and index there are the inner ones)
+        let rel := (j.getObjVal? "rel").toOption.bind (·.getBool?.toOption) |>.getD false
+        if rel then
+          let inner := ((j.getObjVal? "list").toOption.bind (·.getArr?.toOption) |>.getD #[]).toList
+          Json.mkObj (kvs.toList.map fun (kk, v) =>
+            if kk == "list" then (kk, Json.arr ((listPath ++ [en]).map Json.str ++ inner).toArray)
+            else if kk == "rel" then (kk, Json.bool false) else (kk, v))
+        else j
     | _ => Json.mkObj (kvs.toList.map fun (kk, v) => (kk, substIter listPath en k v))
   | _ => j
 
 /-- `ArrayConstraintBuilder.visit_constraint_foreach` over a list of objects: the body once per
     element, in order; every other statement stays as it is -/
-def expandForeachO (stmts : Json) : Except String Json := do
+partial def expandForeachO (stmts : Json) : Except String Json := do
   let mut out : Array Json := #[]
   for sj in (← stmts.getArr?) do
     if (getS sj "k").toOption == some "foreach_o" then
@@ -208,7 +218,11 @@ def expandForeachO (stmts : Json) : Except String Json := do
       let body ← sj.getObjVal? "body"
       for k in List.range n do
         match substIter lp (lname ++ "[" ++ toString k ++ "]") k body with
-        | Json.arr b => out := out ++ b
+        | Json.arr b =>
+            -- nested loops of the body are expanded in turn
+            match ← expandForeachO (Json.arr b) with
+            | Json.arr b' => out := out ++ b'
+            | _ => throw "foreach_o body"
         | _ => throw "foreach_o body"
     else out := out.push sj
   pure (Json.arr out)
